@@ -112,6 +112,8 @@ PROPS = {
             "Encoded::{apply_xor_mask, null_pad, trim_first_nul, len, encode_fixed_size} (src/io.rs; encode_fixed_size with the "
             "transcoder replaced by a stub returning arbitrary bytes)",
             "BinWrite::write_cstring, BinRead::read_cstring_blockwise on an in-memory Cursor (src/io.rs)",
+            "std write_string_128 / read_string_128 (BinRead::read_cstring_exact) - the 128-byte name fields of STD files, transcoder "
+            "stubbed in both directions",
         ],
         "unverified": [
             "Shift-JIS transcoding: Encoded::encode / decode / encode_fixed_size call the external crate encoding_rs (assumed correct; "
